@@ -23,6 +23,7 @@ import (
 	"fmt"
 	"os"
 	"path/filepath"
+	"reflect"
 	"runtime"
 	"sort"
 	"strings"
@@ -30,6 +31,99 @@ import (
 
 	"github.com/xinchentechnote/fin-protoc/internal/model"
 )
+
+// goverifFingerprint: a deep, pointer-identity aware rendering of the model (to detect that a
+// generator changed an object that existed before it ran).
+func goverifFingerprint(v reflect.Value, seen map[uintptr]int, b *strings.Builder, depth int) {
+	if depth > 200 {
+		b.WriteString("<deep>")
+		return
+	}
+	switch v.Kind() {
+	case reflect.Ptr:
+		if v.IsNil() {
+			b.WriteString("nil")
+			return
+		}
+		if id, ok := seen[v.Pointer()]; ok {
+			fmt.Fprintf(b, "^%d", id)
+			return
+		}
+		seen[v.Pointer()] = len(seen)
+		fmt.Fprintf(b, "&%d", len(seen)-1)
+		goverifFingerprint(v.Elem(), seen, b, depth+1)
+	case reflect.Interface:
+		if v.IsNil() {
+			b.WriteString("nil")
+			return
+		}
+		b.WriteString(v.Elem().Type().String() + ":")
+		goverifFingerprint(v.Elem(), seen, b, depth+1)
+	case reflect.Struct:
+		b.WriteString("{")
+		for i := 0; i < v.NumField(); i++ {
+			b.WriteString(v.Type().Field(i).Name + "=")
+			goverifFingerprint(v.Field(i), seen, b, depth+1)
+			b.WriteString(";")
+		}
+		b.WriteString("}")
+	case reflect.Slice, reflect.Array:
+		if v.Kind() == reflect.Slice && v.IsNil() {
+			b.WriteString("nil[]")
+			return
+		}
+		b.WriteString("[")
+		for i := 0; i < v.Len(); i++ {
+			goverifFingerprint(v.Index(i), seen, b, depth+1)
+			b.WriteString(",")
+		}
+		b.WriteString("]")
+	case reflect.Map:
+		if v.IsNil() {
+			b.WriteString("nilmap")
+			return
+		}
+		keys := v.MapKeys()
+		sort.Slice(keys, func(i, j int) bool { return fmt.Sprint(keys[i].Interface()) < fmt.Sprint(keys[j].Interface()) })
+		b.WriteString("map[")
+		for _, k := range keys {
+			if k.Kind() == reflect.Ptr {
+				b.WriteString("ptrkey")
+			} else {
+				fmt.Fprint(b, k.Interface())
+			}
+			b.WriteString(":")
+			goverifFingerprint(v.MapIndex(k), seen, b, depth+1)
+			b.WriteString(",")
+		}
+		b.WriteString("]")
+	default:
+		if v.CanInterface() {
+			fmt.Fprintf(b, "%#v", v.Interface())
+		} else {
+			fmt.Fprintf(b, "%v", v)
+		}
+	}
+}
+
+func goverifModelPrint(m *model.BinaryModel) string {
+	var b strings.Builder
+	goverifFingerprint(reflect.ValueOf(m), map[uintptr]int{}, &b, 0)
+	return b.String()
+}
+
+func goverifFilesPrint(m map[string][]byte) string {
+	ks := make([]string, 0, len(m))
+	for k := range m {
+		ks = append(ks, k)
+	}
+	sort.Strings(ks)
+	var b strings.Builder
+	for _, k := range ks {
+		b.WriteString(k + "\x00" + string(m[k]) + "\x01")
+	}
+	return b.String()
+}
 
 type goverifOutcome struct {
 	Input  string   ` + "`json:\"input\"`" + `
@@ -114,8 +208,32 @@ func TestGoverifReplay(t *testing.T) {
 			}
 			for _, g := range gens {
 				o = goverifOutcome{Input: in, File: filepath.Base(f), Entry: "Generate:" + g.n}
-				goverifGuard(&o, func() { g.f() })
+				var first string
+				goverifGuard(&o, func() {
+					before := goverifModelPrint(m)
+					out, _ := g.f()
+					first = goverifFilesPrint(out)
+					if after := goverifModelPrint(m); after != before {
+						o.Note = "mutation: the model differs after " + g.n + " Generate"
+					}
+				})
 				emit(o)
+				if o.Panic == "" && o.Note == "" {
+					// determinism: the same model, generated again several times
+					o2 := goverifOutcome{Input: in, File: filepath.Base(f), Entry: "Generate:" + g.n}
+					goverifGuard(&o2, func() {
+						for k := 0; k < 6; k++ {
+							out, _ := g.f()
+							if goverifFilesPrint(out) != first {
+								o2.Note = "nondeterminism: " + g.n + " Generate produced different files from the same model"
+								break
+							}
+						}
+					})
+					if o2.Note != "" || o2.Panic != "" {
+						emit(o2)
+					}
+				}
 			}
 		}
 		donef.WriteString(f + "\n")
@@ -253,6 +371,25 @@ func siteFuncs(name string) []string {
 func replayObligation(e *Engine, spec *PropSpec, o *Obligation) *ReplayResult {
 	switch o.Kind {
 	case "SAFE", "PRE", "TERM", "INV":
+	case "FRAME", "DET":
+		// generators: a changed model / differing files observed on the real code for the same target
+		outs := runCrashCorpus(e)
+		lang := ""
+		for _, l := range []string{"Lua", "Rust", "Go", "Java", "Python", "Cpp"} {
+			if strings.Contains(o.Name, "parser."+l) || strings.Contains(o.Func, l+"Generator") || strings.Contains(o.Func, l+"WspGenerator") {
+				lang = l
+			}
+		}
+		want := "mutation:"
+		if o.Kind == "DET" {
+			want = "nondeterminism:"
+		}
+		for _, oc := range outs {
+			if strings.HasPrefix(oc.Note, want) && (lang == "" || oc.Entry == "Generate:"+lang) {
+				return &ReplayResult{Reproduced: true, Input: oc.Input, Entry: oc.Entry, Observed: oc.Note, Tried: crashCorpusSize}
+			}
+		}
+		return &ReplayResult{Reproduced: false, Tried: crashCorpusSize, Note: "no candidate input showed a " + strings.TrimSuffix(want, ":") + " on the real code for " + lang}
 	default:
 		return &ReplayResult{Note: "no replay strategy for obligation kind " + o.Kind}
 	}
